@@ -412,6 +412,19 @@ class Polygon(BaseGeometry):
     def contains(self, other):
         raise Unsupported("shapely-lite: Polygon.contains " + type(other).__name__)
 
+    @property
+    def wkb(self):
+        r = self._ring()
+        if any(isinstance(v, z3.ExprRef) for p in r for v in p):
+            raise Unsupported("shapely-lite: wkb of a polygon with symbolic coordinates")
+        import struct
+
+        return b"lite-polygon" + b"".join(struct.pack("<dd", x, y) for x, y in r + r[:1])
+
+    @property
+    def wkt(self):
+        return self.wkb.hex()
+
     def buffer(self, d, *a, **k):
         if d == 0:
             return self
